@@ -77,9 +77,20 @@ def cut(fn, ordinal, carried, ctl_name="__vc"):
         if isinstance(n, (ast.Break, ast.Continue, ast.Return)) or (isinstance(n, ast.For) and n.orelse):
             raise Undecided("loop-cut contract no longer matches %s: the loop has break / continue / return" % fdef.name)
     bound = {a.arg for a in fdef.args.args + fdef.args.kwonlyargs} | {n.id for n in ast.walk(fdef) if isinstance(n, ast.Name) and isinstance(n.ctx, ast.Store)}
-    for c in carried:
-        if c not in bound:
-            raise Undecided("loop-cut contract no longer matches %s: no variable `%s`" % (fdef.name, c))
+    if any(c not in bound for c in carried):
+        # renamed accumulator?  If the loop body assigns exactly as many plain names as the contract carries (the loop target
+        # aside), those are the loop-carried variables under their new names; anything less clear-cut is undecided
+        tnames = {n.id for n in ast.walk(target.target) if isinstance(n, ast.Name)}
+        assigned = []
+        for st in target.body:
+            for n in ast.walk(st):
+                if isinstance(n, ast.Name) and isinstance(n.ctx, ast.Store) and n.id not in tnames and n.id not in assigned:
+                    assigned.append(n.id)
+        if len(assigned) == len(carried):
+            carried = assigned
+        else:
+            missing = [c for c in carried if c not in bound]
+            raise Undecided("loop-cut contract no longer matches %s: no variable `%s`" % (fdef.name, missing[0]))
     names = ", ".join(carried)
     tup = f"({names},)" if carried else "()"
     lhs = tup if carried else "__none"
